@@ -28,6 +28,7 @@ import (
 	"time"
 	"unicode"
 
+	"github.com/BurntSushi/toml"
 	"github.com/goccy/go-yaml"
 	"github.com/spf13/cast"
 	"rivaas.dev/config"
@@ -257,6 +258,29 @@ type staticSrc struct{ m map[string]any }
 
 func (s *staticSrc) Load(context.Context) (map[string]any, error) { return s.m, nil }
 
+// withoutNils drops nil values at every level of nested maps and lists.
+func withoutNils(v any) any {
+	switch x := v.(type) {
+	case map[string]any:
+		out := map[string]any{}
+		for k, e := range x {
+			if e != nil {
+				out[k] = withoutNils(e)
+			}
+		}
+		return out
+	case []any:
+		out := []any{}
+		for _, e := range x {
+			if e != nil {
+				out = append(out, withoutNils(e))
+			}
+		}
+		return out
+	}
+	return v
+}
+
 func deepCopy(v any) any {
 	switch x := v.(type) {
 	case map[string]any:
@@ -443,7 +467,7 @@ func (r *runT) build(c *caseT, withHooks bool) error {
 			kind = kinds[i].Kind
 		}
 		switch kind {
-		case "json", "yaml":
+		case "json", "yaml", "toml":
 			opts = append(opts, config.WithFile(filepath.Join(r.dir, "s"+strconv.Itoa(i)+"."+kind)))
 		case "hfile":
 			if r.holds == nil {
@@ -531,7 +555,7 @@ func (r *runT) stage(l *loadT) {
 				continue
 			}
 			_ = os.WriteFile(p, blockYAML(s.M), 0o600)
-		case "json", "yaml":
+		case "json", "yaml", "toml":
 			p := filepath.Join(r.dir, "s"+strconv.Itoa(i)+"."+s.Kind)
 			if s.Fail {
 				_ = os.Remove(p)
@@ -546,6 +570,15 @@ func (r *runT) stage(l *loadT) {
 				m["pad"] = strings.Repeat("x", s.Pad)
 			}
 			b, _ := json.Marshal(m) // JSON is YAML
+			if s.Kind == "toml" {
+				// TOML has no null: nil values are left out of the file (what is written is what counts: the
+				// expectation is decoded from these bytes)
+				tb, err := toml.Marshal(withoutNils(m))
+				if err != nil {
+					tb = []byte("# not encodable\n")
+				}
+				b = tb
+			}
 			// same size (padded with blanks) and same modification time on every rewrite: a source
 			// that decides from size and mtime whether to read the file again would serve stale bytes
 			for len(b)%512 != 0 {
@@ -604,6 +637,12 @@ func (r *runT) returned(i int, s *srcT) (map[string]any, bool) {
 	case "hfile":
 		var m map[string]any
 		if err := yaml.Unmarshal(blockYAML(s.M), &m); err != nil {
+			return nil, false
+		}
+		return m, true
+	case "toml":
+		var m map[string]any
+		if err := toml.Unmarshal(r.written[i], &m); err != nil {
 			return nil, false
 		}
 		return m, true
@@ -1427,7 +1466,7 @@ func genCase(r *hx.Rand, tier string) caseT {
 		case 0:
 			kinds[i] = "json"
 		case 1:
-			kinds[i] = "yaml"
+			kinds[i] = hx.Pick(r, []string{"yaml", "toml"})
 		case 2:
 			kinds[i] = "static"
 		case 3:
